@@ -425,12 +425,32 @@ def c01(case):
     doc["blocks"] = {int(k): v for k, v in doc["blocks"].items()}
     out = {"exc": "none", "pretty_exc": "none", "tracts": [], "pretty": [], "obs_layout": "?", "n_e": 0, "plines": []}
     try:
-        d = pytrs.PLSSDesc(a["text"])
-        out["obs_layout"] = d.current_layout
-        out["n_e"] = len(d.e_flags)
-        out["e_flags"] = [str(f)[:80] for f in d.e_flags][:5]
-        out["tracts"] = plssdoc.project_tracts(d.tracts, doc)
-        out["raw"] = [(t.trs, t.desc) for t in d.tracts][:12]
+        route = a.get("route")
+        if route == "dry":
+            # "what would the tracts be": a description created with wait_to_parse, parse(commit=False) - the returned
+            # TractList is all the caller gets (its tracts carry the flags), nothing is stored
+            d0 = pytrs.PLSSDesc(a["text"], wait_to_parse=True)
+            tl = d0.parse(commit=False)
+            eflags = []
+            for t in tl:
+                eflags += [f for f in t.e_flags if f not in eflags]
+            out["obs_layout"] = d0.deduce_layout()
+            out["n_e"] = len(eflags)
+            out["e_flags"] = [str(f)[:80] for f in eflags][:5]
+            out["tracts"] = plssdoc.project_tracts(tl, doc)
+            out["raw"] = [(t.trs, t.desc) for t in tl][:12]
+            d = tl
+        else:
+            if route == "deferred":
+                d = pytrs.PLSSDesc(a["text"], wait_to_parse=True)
+                d.parse()
+            else:
+                d = pytrs.PLSSDesc(a["text"])
+            out["obs_layout"] = d.current_layout
+            out["n_e"] = len(d.e_flags)
+            out["e_flags"] = [str(f)[:80] for f in d.e_flags][:5]
+            out["tracts"] = plssdoc.project_tracts(d.tracts, doc)
+            out["raw"] = [(t.trs, t.desc) for t in d.tracts][:12]
     except Exception as e:  # noqa
         out.update(_exc(e))
         return out
@@ -671,6 +691,20 @@ class _DryView:
         self.desc_is_flawed = bool(self.e_flags)
 
 
+def _caller_edits(d):
+    """The caller takes the breakdown of each tract's Twp/Rge/Sec through the conversion functions and edits what it
+    got (its own copies, as far as it can tell).  Later descriptions of this worker process name the same sections."""
+    import pytrs
+    try:
+        for t in list(d.tracts)[:4]:
+            for got in (pytrs.trs_to_dict(t.trs), pytrs.TRS.trs_to_dict(t.trs), t.to_dict("trs", "twp", "rge", "sec", "twprge")):
+                if isinstance(got, dict):
+                    for k_ in list(got):
+                        got[k_] = "EDITED"
+    except Exception:  # noqa
+        pass
+
+
 def plss(case):
     a = case["args"]
     try:
@@ -678,6 +712,14 @@ def plss(case):
             import pytrs
             d0 = pytrs.PLSSDesc(a["text"], config=a.get("config"), source=a.get("source", "SRC-1"), wait_to_parse=True)
             return plss_project(_DryView(d0, d0.parse(commit=False)), a)
+        import zlib
+        if zlib.crc32(str(case["id"]).encode()) % 3 == 0:
+            # a third of the cases: the process has parsed the very same text before, with default settings
+            try:
+                import pytrs
+                pytrs.PLSSDesc(a["text"])
+            except Exception:  # noqa
+                pass
         d = plss_make(a)
         post = a.get("post")
         if post == "parse_tracts":
@@ -696,7 +738,9 @@ def plss(case):
             d.parse(parse_qq=True, commit=False)
             for t in d.tracts:
                 t.parse(commit=False)
-        return plss_project(d, a)
+        out = plss_project(d, a)
+        _caller_edits(d)
+        return out
     except Exception as e:  # noqa
         o = dict(EMPTY_OBS)
         o.update(_exc(e))
@@ -2023,6 +2067,23 @@ def c07(case):
                 if tk.preprocess(clean_qq=kw) != want or tk.preprocess(clean_qq=kw, commit=True) != want or tk.pp_desc != want:
                     same = False if a["all_recognised"] else same
                     fixed = False
+        # a tract parsed under the other clean_qq setting, re-configured (through its .config or through its container's
+        # config_tracts), then re-parsed by the container's parse_tracts() without arguments: the setting now in force
+        want_t, want_r = _c07_res(text, clean, None)
+        for how in ("config", "config_tracts", "attribute"):
+            tk = pytrs.Tract(text, parse_qq=True, config=None if clean else "clean_qq")
+            lst = pytrs.TractList([tk])
+            new_cfg = "clean_qq" if clean else "clean_qq.False"
+            if how == "config":
+                tk.config = new_cfg
+            elif how == "config_tracts":
+                lst.config_tracts(new_cfg)
+            else:
+                tk.clean_qq = bool(clean)
+            lst.parse_tracts()
+            if (tuple(tk.lots), tuple(tk.qqs), tuple(tk.aliquots_whole)) != want_r or tk.pp_desc != want_t.pp_desc:
+                fixed = False
+                same = False if a["all_recognised"] else same
         # the same spelling as the description block of a PLSSDesc: the tract it hands down reads it alike
         if a["all_recognised"]:
             cfgp = "parse_qq,clean_qq" if clean else "parse_qq"
@@ -2091,6 +2152,15 @@ def c08(case):
             cobj = pytrs.Config.from_kwargs(**obj_settings)
         elif cfg_form == "dict":
             cobj = pytrs.Config.from_dict(dict(obj_settings))
+        elif cfg_form == "parent" and not a["ocr"]:
+            # the settings of another object taken over with Config.from_parent() (it carries the default directions,
+            # parse_qq, clean_qq, suppress_lot_divs and the layout - not ocr_scrub)
+            ptxt = ",".join(v for k_, v in obj_settings.items() if k_ in ("default_ns", "default_ew")) or None
+            if a.get("parent_kind") == "tract":
+                parent = pytrs.Tract("NE/4", config=ptxt)
+            else:
+                parent = pytrs.PLSSDesc("T1N-R1W Sec 1: NE/4", config=ptxt, wait_to_parse=True)
+            cobj = pytrs.Config.from_parent(parent)
         for axis, val, mcattr, key in (("ns", dns, "default_ns", "default_ns"), ("ew", dew, "default_ew", "default_ew")):
             sx = src[axis]
             if sx == "config":
